@@ -545,6 +545,21 @@ def run_query(args):
                 try:
                     ok, d, rc, tail = replay(q, work, prep, vals or [], replaydir)
                     rec['replay'] = {'reproduced': ok, 'dir': d, 'rc': rc, 'tail': tail, 'values': len(vals or [])}
+                    if not ok and q.fp_uf:
+                        # with floating-point operations uninterpreted the solver's values need not satisfy the harness assumptions under
+                        # IEEE arithmetic (rc 77). The failing CHECK is still a claim about the real code: look for a concrete input with a
+                        # seeded native sweep of the same harness on the real sources; only a native failure is reported as a violation.
+                        exeA, _ = native_build(q, work, prep, only_real=True)
+                        env = dict(os.environ, SYMX_SWEEP=str(max(q.native_sweep, 500)), SYMX_SEED=str(seed))
+                        ra = run([exeA], env=env, timeout=300)
+                        fails = [l for l in ra.stdout.split('\n') if ' fails=' in l and ' fails=0 ' not in l]
+                        rec['replay']['native_sweep_failures'] = fails[:3]
+                        if fails:
+                            dd = os.path.join(replaydir, q.slug())
+                            os.makedirs(dd, exist_ok=True)
+                            shutil.copy(exeA, os.path.join(dd, 'replay_real'))
+                            open(os.path.join(dd, 'README'), 'a').write('\nnative sweep (the solver values do not replay under IEEE arithmetic): SYMX_SWEEP=%s SYMX_SEED=%d ./replay_real\n%s\n' % (env['SYMX_SWEEP'], seed, fails[0]))
+                            rec['replay'].update(reproduced=True, dir=dd, via='native sweep')
                 except Exception as e:
                     rec['replay'] = {'reproduced': False, 'error': str(e)[-800:]}
     except Exception as e:
@@ -674,7 +689,13 @@ def run_property(pid, spec, tier, seed):
                 known.append((r, kf))
                 continue
             rp = r.get('replay') or {}
-            if rp.get('reproduced'):
+            first = (r.get('failed') or [['', '']])[0][1]
+            if '[sampling idiom]' in first:
+                # the first failing statement is one that is phrased for the sampling idiom normal_distribution(0, sigma)(generator): the library
+                # no longer draws its gaussians that way (e.g. a unit-variance draw scaled by sigma). That is not a violation of the property;
+                # the sigma-plumbing statement is simply not decided for the new idiom.
+                inconclusive.append((r, 'not decided: the library changed the way it draws gaussians (%s); the statements after it assume that idiom' % first))
+            elif rp.get('reproduced'):
                 violations.append((r, what, rp.get('dir')))
             else:
                 inconclusive.append((r, 'counterexample not reproduced on the real build (%s): %s' % (rp.get('rc', rp.get('error')), what)))
